@@ -77,9 +77,11 @@ class Model:
         logger.debug("step, model time: %4d %s", step, self.timer.time)
 
         self.release.update()
+        # Remove dead particles before the forcing is interpolated to the particles,
+        # keeping the per-particle forcing arrays aligned with the state in the tracker
+        self.state.compactify()
         self.force.update()
 
-        # self.state.compactify()
         if step >= 0:
             self.output.update()
 
